@@ -103,7 +103,7 @@ def make_cfg(rng, events=("Probe",), long_steps=False):
     nses = rng.randint(1, 3)
     ev_session = rng.randrange(nses)
     for i in range(nses):
-        sessions.append({"sessionName": i, "iterationSteps": rng.choice([1, 3, 7, 25] + ([60, 101] if long_steps else [])), "withOrderPlacement": rng.random() < 0.85,
+        sessions.append({"sessionName": i, "iterationSteps": rng.choice([1, 3, 7, 25] + ([60, 101] if long_steps else []) + ([0] if (i > 0 and rng.random() < 0.3) else [])), "withOrderPlacement": rng.random() < 0.85,
                          "withOrderExecution": rng.random() < 0.7, "withPrint": False,
                          "maxNormalOrders": rng.choice([0, 1, 2, 5]), "maxHighFrequencyOrders": rng.choice([0, 1, 2]),
                          "highFrequencySubmitRate": rng.choice([0.0, 0.5, 1.0]), "events": list(events) if i == ev_session else []})
